@@ -296,6 +296,13 @@ def impl_gateeq(a, b):
         return {"err": err_name(ex), "v": None}
 def parse_bool(line): return parse_ok_err(line, lambda r: r.next() == "1")
 
+def req_circuiteq(a, b): return " ".join(["circuiteq"] + W.t_circuit(a) + W.t_circuit(b))
+def impl_circuiteq(a, b):
+    try:
+        return {"err": None, "v": bool(W.os_circuit(a) == W.os_circuit(b))}
+    except Exception as ex:
+        return {"err": err_name(ex), "v": None}
+
 def req_check(g, gs):
     out = ["check"] + W.t_gate(g) + [str(len(gs))]
     for x in gs: out += W.t_gate(x)
